@@ -57,6 +57,8 @@ func SpecMarkedText(tVersion, tShort, tYear, tSecRule, tSignature string, lines 
 //@   ensures[C15] at-most-one-write: fsWrites() <= old(fsWrites())+1
 //@   ensures[C15] writes-own-path: implies(fsWrites() > old(fsWrites()), lastWritePath() == filePath)
 //@   checks[C14,C15] writes-updated-text: implies(fsWrites() > old(fsWrites()), called(updateRules) && lastWriteData() == resultOf(updateRules, 0) && resultOf(updateRules, 1) == nil)
+//@   checks[C14] every-readable-file-is-updated: implies(called(ReadFile) && resultOf(ReadFile, 1) == nil, called(updateRules) && argOf(updateRules, 0) == version && argOf(updateRules, 1) == year && argOf(updateRules, 2) == lastRead())
+//@   checks[C14] success-means-updated-on-disk: implies(r == nil, called(updateRules) && (fsWrites() > old(fsWrites()) || lastRead() == resultOf(updateRules, 0)))
 
 // the walk only hands *.conf and *.example files to processFile
 //@ contract UpdateCopyright#0
